@@ -111,6 +111,8 @@ def gen_srr(rng, max_vox=24000, force_valid=True):
             spotsize, speed, scantime = 35.0 * M, 140.0, 0.25
             seconds = (w + 0.5) * 0.25
         weff = warmup_samples(seconds, scantime)
+        if mode == "neartie":  # input sizing only: here the float quotient decides, so that most of these stacks are long enough
+            weff = max(0, round(seconds / scantime))
         pairs = gen_pairs(rng)
         size = math.lcm(*[d for _, d in pairs])
         p = math.lcm(size, M) // M
@@ -743,12 +745,17 @@ class C10(Prop):
             want = rshape
             feats.add("srr: reconstructed although the model rejects the configuration")
         spec = {"cols_from_extent": want[1], "rows_from_extent": want[0], "reconstructed_shape": want}
-        if rep["model_ratio"] is None or rep["model_shape"] is None:
+        if rep["valid"] is not True:
+            # e.g. one sample short with one-line layers: NumPy broadcasts the short line, the model (no broadcasting) has no
+            # reconstruction; the property relates the extent to the array that WAS reconstructed, nothing else to compare
+            model = dict(spec)
+        elif rep["model_ratio"] is None or rep["model_shape"] is None:
             model = {"cols_from_extent": None, "rows_from_extent": None, "reconstructed_shape": rep["model_shape"]}
         else:
             mr = [unrat(v) for v in rep["model_ratio"]]
             model = {"cols_from_extent": near_int(mr[0]), "rows_from_extent": near_int(mr[1]), "reconstructed_shape": rep["model_shape"]}
         # the extent and pixel size themselves, against the model (1e-12 relative)
+        model = dict(model)
         impl["extent_px_agree_with_model"] = bool(ext_close(ext, rep["model_extent"]) and fclose(px, unrat(rep["model_px"]))
                                                   and fclose(py, unrat(rep["model_py"]))) if rep["model_extent"] is not None else None
         model["extent_px_agree_with_model"] = True if rep["model_extent"] is not None else None
